@@ -431,7 +431,15 @@ class AtomicSaver:
             try:
                 os.chmod(self.part_path, file_perms)
             except OSError:
-                self.part_file.close()
+                try:
+                    self.part_file.close()
+                except Exception:
+                    pass  # avoid masking original error
+                if self.rm_part_on_exc:
+                    try:
+                        os.unlink(self.part_path)
+                    except Exception:
+                        pass
                 raise
         return
 
